@@ -35,13 +35,18 @@ def run_shard(ctx, spec):
     if spec['w'] == 'bfs':
         ex.bfs(spec['nj'], spec['reg'], spec['jo'], part=spec['i'], nparts=spec['n'], split_depth=spec.get('split', 3),
                max_states=spec.get('max_states'))
+    elif spec['w'] == 'jumpoff':
+        # long scripted jump-offs (knock-out patterns over 3-6 rounds); after every round everybody who is out tries to jump
+        for k in range(spec['walks']):
+            ex.jumpoff_scenario(rnd.choice([2, 3, 3, 4, 4, 5]), max_jo=rnd.choice([3, 4, 5, 6]), scripted=True, probe_outsiders=True,
+                                passes=(k % 5 == 4))
     elif spec['w'] == 'probe':
         for k in range(spec['walks']):
-            ex.walk_probe(rnd.choice([2, 2, 3, 3, 4]), maxlen=70, jumpoff_prefix=bool(spec.get('jo')))
+            ex.walk_probe(rnd.choice([2, 2, 3, 3, 4, 5]), maxlen=70, jumpoff_prefix=bool(spec.get('jo')))
         ctx.count('eval.probed-calls', ex.probed)
     else:
         for k in range(spec['walks']):
-            ex.walk(rnd.choice([1, 2, 2, 3, 3, 4]), maxlen=120)
+            ex.walk(rnd.choice([1, 2, 2, 3, 3, 4, 5, 6]), maxlen=rnd.choice([120, 120, 260]), max_reg=rnd.choice([4, 4, 8]))
     ctx.nt_bulk(ex.states)
     ctx.info['states'] = ex.states
     ctx.info['transitions'] = ex.transitions
@@ -60,6 +65,7 @@ def shards(tier, seed):
         s += [{'w': 'bfs', 'nj': 2, 'reg': 2, 'jo': 0, 'i': 0, 'n': 1, 'fine': True}]   # with sub-centimetre rises of the bar
         s += [{'w': 'walk', 'walks': 60, 'i': 100 + i} for i in range(5)]
         s += [{'w': 'walk', 'walks': 80, 'i': 120 + i, 'float': True} for i in range(3)]
+        s += [{'w': 'jumpoff', 'walks': 500, 'i': 140 + i} for i in range(4)]
         s += [{'w': 'walk', 'walks': 80, 'i': 130, 'bibs': 'int0'}, {'w': 'walk', 'walks': 80, 'i': 131, 'bibs': 'zeros'},
               {'w': 'bfs', 'nj': 2, 'reg': 1, 'jo': 1, 'i': 0, 'n': 1, 'bibs': 'int0'}]
         s += [{'w': 'probe', 'walks': 300 if i % 2 == 0 else 900, 'i': 200 + i, 'jo': i % 2} for i in range(16)]
@@ -75,6 +81,7 @@ def shards(tier, seed):
     s += [{'w': 'walk', 'walks': 1250, 'i': 100 + i} for i in range(16)]
     s += [{'w': 'walk', 'walks': 1250, 'i': 150 + i, 'float': True} for i in range(8)]
     s += [{'w': 'walk', 'walks': 1250, 'i': 160 + i, 'bibs': ('int0', 'zeros')[i % 2]} for i in range(4)]
+    s += [{'w': 'jumpoff', 'walks': 5000, 'i': 170 + i} for i in range(16)]
     s += [{'w': 'bfs', 'nj': 2, 'reg': 2, 'jo': 1, 'i': i, 'n': 4, 'bibs': 'int0'} for i in range(4)]
     s += [{'w': 'probe', 'walks': 6000, 'i': 200 + i, 'jo': i % 2} for i in range(16)]
     return s
